@@ -859,6 +859,14 @@ class CallMixin:
                 if isinstance(tt, Tup):
                     fs = [leaf(x, f"{nm}.{k}") for k, x in enumerate(tt.items)]
                     return lambda i: VTuple([g(i) for g in fs])
+                if isinstance(tt, Arr):
+                    # a list of 1-D arrays: item i is the view [OFF(i), OFF(i) + LEN(i)) of one backing object
+                    obj = self.new_obj(st, tt.kind, tt.dtype, nm)
+                    off = z3.Function(nm + ".off", INT, INT)
+                    ln = z3.Function(nm + ".len", INT, INT)
+                    qi = z3.Int("qi!seq")
+                    st.assume(z3.ForAll([qi], z3.And(off(qi) >= 0, ln(qi) >= 0), patterns=[z3.MultiPattern(off(qi), ln(qi))]))
+                    return lambda i: VArr(obj, off(smt.som(i)), z3.IntVal(1), ln(smt.som(i)))
                 raise OutOfSubset(f"sequence item type {tt!r}")
             return VSeq(n, leaf(t.item, name + "@item"))
         if isinstance(t, Tup):
